@@ -129,12 +129,20 @@ pub fn units(tier: Tier, _seed: u64) -> Vec<Unit> {
         }
     }
     for x in u.iter_mut() { x.budget_s = if q_ { 30.0 } else { 900.0 }; x.max_decisions = 60000; x.path_cap = if q_ { 3000 } else { 20000 }; }
+    let first_big = u.len();
+    for &n in &(if q_ { vec![5usize, 8] } else { vec![5usize, 6, 8, 12, 16] }) {
+        for (vk, kk, ex) in [(VK::Sma(n), n, Except::None), (VK::Cumulative(n), n, Except::None), (VK::Min(n), n, Except::None), (VK::Max(n), n, Except::None), (VK::Roc(n), n + 1, Except::RocZeroBase), (VK::WelfordOnline(n), n, Except::None),
+            (VK::HLNormalizer(n), n, Except::None), (VK::BinaryEntropy(n), n, Except::None), (VK::CoG(n), n, Except::None), (VK::Rsi(n), n + 1, Except::None), (VK::MyRSI(n), n + 1, Except::MyRsiFlat), (VK::Alma(n), 2 * n, Except::None), (VK::CTI(n), n, Except::None), (VK::NET(n.min(10)), n.min(10), Except::None)] {
+            u.push(unit!(format!("C03/{}/K={kk}/prefix=2,5/sample-path", vk.name()), finite_memory(vk.clone(), None, kk, 2usize, 5usize, ex, 2usize)));
+        }
+    }
+    for x in u.iter_mut().skip(first_big) { x.concolic = Some(7); x.budget_s = 30.0; x.max_decisions = 60000; }
     u
 }
 pub fn meta() -> Meta {
     Meta {
         functions: vec!["Sma", "Cumulative", "Min", "Max", "Roc", "WelfordOnline", "Vst", "Vsct", "HLNormalizer", "BinaryEntropy", "CenterOfGravity", "CorrelationTrendIndicator", "NoiseEliminationTechnology", "Rsi", "MyRSI", "Alma", "PolarizedFractalEfficiency over Sma(M) and over a harness M-window mean — each ::{new,update,last}, two instances"],
-        bounds: "N in {1,2} (quick) / {1..4} (thorough) (CTI/NET/PFE at their minimum 3, NET to 4); private prefix lengths (p,q) in {(0,1),(1,2)} (quick) / {(0,1),(1,0),(1,2),(2,1),(0,3),(3,1)} (thorough); shared suffix K as in the statement, plus one further shared value; prefix values are unconstrained reals ('arbitrarily large'); exceptions encoded as assumptions on the shared suffix only (MyRSI: suffix not flat; Roc: x_(t-N) != 0); all comparison outcomes of both instances; in addition long shared suffixes (10N+8 values: strictly decreasing / increasing for Min, Max, HLNormalizer; alternating-then-flat for Sma, Cumulative, WelfordOnline, Vst, Vsct, Max, BinaryEntropy, CoG) after prefixes (1,3) and (0,2), N in {1,2,3} (quick) / {1,2,3,4,6}; and a fresh history against one with an (8N+3)-value alternating private prefix, shared suffix = flat run of N+1 then 3 free values, N in {2,3} / {2,3,4,6}",
+        bounds: "N in {1,2} (quick) / {1..4} (thorough) (CTI/NET/PFE at their minimum 3, NET to 4); private prefix lengths (p,q) in {(0,1),(1,2)} (quick) / {(0,1),(1,0),(1,2),(2,1),(0,3),(3,1)} (thorough); shared suffix K as in the statement, plus one further shared value; prefix values are unconstrained reals ('arbitrarily large'); exceptions encoded as assumptions on the shared suffix only (MyRSI: suffix not flat; Roc: x_(t-N) != 0); all comparison outcomes of both instances; in addition long shared suffixes (10N+8 values: strictly decreasing / increasing for Min, Max, HLNormalizer; alternating-then-flat for Sma, Cumulative, WelfordOnline, Vst, Vsct, Max, BinaryEntropy, CoG) after prefixes (1,3) and (0,2), N in {1,2,3} (quick) / {1,2,3,4,6}; and a fresh history against one with an (8N+3)-value alternating private prefix, shared suffix = flat run of N+1 then 3 free values, N in {2,3} / {2,3,4,6}; and N in {5,8} (quick) / {5,6,8,12,16} with prefixes (2,5) along a sampled comparison path",
         outside: vec!["prefixes longer than 3 (a leak needing >= 4 stale values to show)", "N > 4", "'up to rounding': decided over the reals"],
         assumptions: vec![],
     }
